@@ -476,6 +476,9 @@ class X:
         if isinstance(tr, tuple) and tr[0] in ("list", "set") and tr[1] == "int" and tl == "int" and isinstance(op, (ast.In, ast.NotIn)):
             c = "(zmem %s %s)" % (l, r)
             return (c if isinstance(op, ast.In) else "(negb %s)" % c), "bool", b
+        if isinstance(tr, tuple) and tr[0] == "wdict" and tl == "world" and isinstance(op, (ast.In, ast.NotIn)):
+            c = "(wdict_mem %s %s)" % (r, l)
+            return (c if isinstance(op, ast.In) else "(negb %s)" % c), "bool", b
         if isinstance(tr, tuple) and tr[0] == "dict" and tl == "int" and isinstance(op, (ast.In, ast.NotIn)):
             c = "(zdict_mem %s %s)" % (r, l)
             return (c if isinstance(op, ast.In) else "(negb %s)" % c), "bool", b
@@ -569,7 +572,7 @@ class X:
             if kt != "int":
                 fail(e, "dictionary comprehension with keys of type %r" % (kt,))
             return "(map (fun %s => (%s, %s)) (dict_keys %s))" % (p, kc, vc, it), ("dict", vt), bit
-        if tit in (("list", "cond"), ("list", ("tuple", ("int", "int")))):
+        if tit in (("list", "cond"), ("list", "int"), ("list", ("tuple", ("int", "int")))):
             env2 = dict(env)
             p = target_pat(g.target, env2, tit[1])
             kc, kt = self.pure(e.key, env2)
@@ -909,8 +912,8 @@ class X:
             fail(e, "sorted(key=len) of %r" % (t,))
         if name == "sorted" and len(e.args) == 1 and not e.keywords:
             c, t, b = self.tx(e.args[0], env)
-            if t == ("list", "int"):
-                return "(zsort %s)" % c, t, b
+            if t in (("list", "int"), ("set", "int")):
+                return "(zsort %s)" % c, ("list", "int"), b
             fail(e, "sorted of %r" % (t,))
         if name == "__unopt" and len(e.args) == 1:
             # inserted by the translator under `if x is not None:` - the value of x there
@@ -1156,6 +1159,9 @@ def assigned(stmts):
                 if isinstance(e, ast.Call) and isinstance(e.func, ast.Attribute) and isinstance(e.func.value, ast.Subscript) \
                         and isinstance(e.func.value.value, ast.Name):
                     add(e.func.value.value.id)
+            elif isinstance(s, ast.Delete):
+                for t in s.targets:
+                    tgt(t)
             elif isinstance(s, ast.For):
                 tgt(s.target)
                 walk(s.body)
@@ -1301,6 +1307,21 @@ class B:
             if isinstance(s, ast.If) and self.is_logging_if(s):
                 continue
             if isinstance(s, ast.Pass):
+                continue
+            # ---- del d[k] on an integer-keyed dictionary (KeyError if the key is missing)
+            if isinstance(s, ast.Delete):
+                if len(s.targets) != 1 or not (isinstance(s.targets[0], ast.Subscript) and isinstance(s.targets[0].value, ast.Name) and s.targets[0].value.id in env
+                                               and isinstance(env[s.targets[0].value.id], tuple) and env[s.targets[0].value.id][0] == "dict"):
+                    fail(s, "del of this shape")
+                dn = s.targets[0].value.id
+                if dn in self.ctx.captured:
+                    fail(s, "%s is mutated after it was stored elsewhere (aliasing)" % dn)
+                kc, kt, kb = self.x.tx(s.targets[0].slice, env)
+                if kt != "int":
+                    fail(s, "dictionary key of type %r" % (kt,))
+                old = self.ctx.fresh()
+                binds_in(kb + [(old, "zdict_get %s %s" % (v(dn), kc), "cbind")])
+                let(v(dn), "(zdict_del %s %s)" % (v(dn), kc))
                 continue
             # ---- try: x = d[k]; ... except KeyError: return v    (only dictionary look-ups inside, so only KeyError can arise)
             if isinstance(s, ast.Try):
@@ -1448,6 +1469,20 @@ class B:
                     old = self.ctx.fresh()
                     binds_in(kb + xb + [(old, "zdict_get %s %s" % (v(dn), kc), "cbind")])
                     let(v(dn), "(zdict_set %s %s (wset_add %s %s))" % (v(dn), kc, old, xc))
+                    continue
+                if (isinstance(e, ast.Call) and isinstance(e.func, ast.Attribute) and e.func.attr in ("add", "discard") and len(e.args) == 1 and not e.keywords
+                        and isinstance(e.func.value, ast.Subscript) and isinstance(e.func.value.value, ast.Name) and e.func.value.value.id in env
+                        and env[e.func.value.value.id] == ("wdict", ("set", "int"))):
+                    dn = e.func.value.value.id
+                    if dn in self.ctx.captured:
+                        fail(s, "%s is mutated after it was stored elsewhere (aliasing)" % dn)
+                    kc, kt, kb = self.x.tx(e.func.value.slice, env)
+                    xc, xt, xb = self.x.tx(e.args[0], env)
+                    if (kt, xt) != ("world", "int"):
+                        fail(s, "%s through a subscript with %r" % (e.func.attr, (kt, xt)))
+                    old = self.ctx.fresh()
+                    binds_in(kb + xb + [(old, "wdict_get %s %s" % (v(dn), kc), "cbind")])
+                    let(v(dn), "(wdict_set %s %s (%s %s %s))" % (v(dn), kc, "zset_add" if e.func.attr == "add" else "zset_discard", old, xc))
                     continue
                 if (isinstance(e, ast.Call) and isinstance(e.func, ast.Attribute) and e.func.attr == "append" and len(e.args) == 1 and not e.keywords
                         and isinstance(e.func.value, ast.Subscript) and isinstance(e.func.value.value, ast.Name) and e.func.value.value.id in env):
@@ -1757,9 +1792,9 @@ class B:
         return not s.orelse and all(isinstance(x, ast.Expr) and is_logger_call(x.value) for x in s.body)
 
     def ret(self, s, env):
-        if s.value is None:
-            return "tt", []
         fn = self.ctx.fn
+        if s.value is None:
+            return ("tt" if not fn.returns_state else "(tt, %s)" % tup(fn.returns_state)), []
         if fn.ret_union:
             e = s.value
             first = e.elts[0] if isinstance(e, ast.Tuple) else e
@@ -2171,6 +2206,24 @@ TARGETS = [
                     "cond_masks": ("dict", ("opt", ("tuple", ("int", "int", "int", "int"))))}, narrow=["mask"]),
         Fn("compile_alt", "py_compile_alt", [("ranking_function", "preocf"), ("revision_conditionals", ("list", "cond"))],
            locals_={"vMin": ("dict", ("list", TRIPLE)), "fMin": ("dict", ("list", TRIPLE)), "acc_list": ("list", "int"), "rej_list": ("list", "int")}),
+    ]),
+    dict(out="SrcCrevM", file="inference/c_revision_model.py", requires=["SrcCond", "SrcOcf"], extra_imports=["PyInt"], funcs=[
+        Fn("_literal_info", "py_cm_literal_info", [("node", "form")], ret=("opt", ("tuple", ("int", "int")))),
+        Fn("_extract_cond_masks", "py_cm_extract_cond_masks", [("cond", "cond"), ("sig_index", ("dict", "int"))], ret=("opt", ("tuple", ("int", "int", "int", "int")))),
+        Fn("rank_world", "m_rank_world", [("world", "world")], cls="PreOCF", ret="int", abstract=True),
+        Fn("add_conditional", "py_CRevisionModel_add_conditional", [("cond", "cond")], cls="CRevisionModel",
+           state=[("@sig_index", "at_sig_index", ("dict", "int")), ("@worlds", "at_worlds", ("list", "world")), ("@world_bits", "at_world_bits", ("wdict", ("list", "int"))),
+                  ("@ranking_function", "at_ranking_function", "preocf_s")],
+           at_mut=[("conds", ("dict", "cond")), ("masks", ("dict", ("opt", ("tuple", ("int", "int", "int", "int"))))), ("world_acc", ("wdict", ("set", "int"))), ("world_rej", ("wdict", ("set", "int")))],
+           narrow=["mask"]),
+        Fn("remove_conditional", "py_CRevisionModel_remove_conditional", [("index", "int")], cls="CRevisionModel",
+           state=[("@worlds", "at_worlds", ("list", "world"))],
+           at_mut=[("conds", ("dict", "cond")), ("masks", ("dict", ("opt", ("tuple", ("int", "int", "int", "int"))))), ("world_acc", ("wdict", ("set", "int"))), ("world_rej", ("wdict", ("set", "int")))]),
+        Fn("to_compilation", "py_CRevisionModel_to_compilation", [], cls="CRevisionModel",
+           state=[("@conds", "at_conds", ("dict", "cond")), ("@worlds", "at_worlds", ("list", "world")), ("@world_acc", "at_world_acc", ("wdict", ("set", "int"))),
+                  ("@world_rej", "at_world_rej", ("wdict", ("set", "int"))), ("@ranking_function", "at_ranking_function", "preocf_s")],
+           at_mut=[("_rank_cache", ("wdict", "int"))],
+           locals_={"vMin": ("dict", ("list", TRIPLE)), "fMin": ("dict", ("list", TRIPLE))}),
     ]),
     dict(out="SrcP", file="inference/p_entailment.py", requires=["SrcCond", "SrcCons"], funcs=[
         Fn("_inference", "py_PEntailment_inference", [("query", "cond"), ("weakly", "bool"), ("deadline", "deadline")],
